@@ -948,3 +948,195 @@ def map_back(trees):
                                 n.attr == new[0]:
                             n.attr = gone[0]
     return al
+
+
+# ----------------------------------------------------------------------
+# A helper of the pinned tree that was inlined into its callers and deleted
+# is put back: where the caller contains the pinned body statement for
+# statement (parameters as pattern variables, locals renamed one-to-one) the
+# run is replaced by a call and the pinned definition is re-inserted.  The
+# match is exact - anything short of it leaves the anchor missing (exit 2).
+
+class _NoMatch(Exception):
+    pass
+
+
+class _Unifier:
+    def __init__(self, params, locals_):
+        self.params = set(params)
+        self.locals = set(locals_)
+        self.pbind = {}         # param -> target expr
+        self.lbind = {}         # local -> target name
+        self.lrev = {}
+
+    def node(self, p, t):
+        if isinstance(p, ast.Name) and p.id in self.params:
+            if not isinstance(p.ctx, ast.Load) or not isinstance(t, ast.expr):
+                raise _NoMatch
+            if p.id in self.pbind:
+                if ast.dump(self.pbind[p.id]) != ast.dump(t):
+                    raise _NoMatch
+            else:
+                self.pbind[p.id] = t
+            return
+        if isinstance(p, ast.Name) and p.id in self.locals:
+            if not isinstance(t, ast.Name) or \
+                    type(p.ctx) is not type(t.ctx):
+                raise _NoMatch
+            if self.lbind.setdefault(p.id, t.id) != t.id or \
+                    self.lrev.setdefault(t.id, p.id) != p.id:
+                raise _NoMatch
+            return
+        if type(p) is not type(t):
+            raise _NoMatch
+        for fld in p._fields:
+            if fld in ('ctx', 'type_comment'):
+                continue
+            a, b = getattr(p, fld, None), getattr(t, fld, None)
+            if isinstance(p, ast.ExceptHandler) and fld == 'name' and \
+                    a in self.locals:
+                if self.lbind.setdefault(a, b) != b or \
+                        self.lrev.setdefault(b, a) != a:
+                    raise _NoMatch
+                continue
+            self.value(a, b)
+
+    def value(self, a, b):
+        if isinstance(a, ast.AST):
+            if not isinstance(b, ast.AST):
+                raise _NoMatch
+            self.node(a, b)
+        elif isinstance(a, list):
+            if not isinstance(b, list) or len(a) != len(b):
+                raise _NoMatch
+            for x, y in zip(a, b):
+                self.value(x, y)
+        else:
+            if a != b or type(a) is not type(b):
+                raise _NoMatch
+
+
+def _strip_doc(body):
+    return [s for i, s in enumerate(body)
+            if not (i == 0 and isinstance(s, ast.Expr) and
+                    isinstance(s.value, ast.Constant) and
+                    isinstance(s.value.value, str))]
+
+
+def _blocks(fnode):
+    """Every statement list inside the function (not nested defs)."""
+    out = [fnode.body]
+    stack = list(fnode.body)
+    while stack:
+        s = stack.pop()
+        if isinstance(s, (ast.FunctionDef, ast.AsyncFunctionDef,
+                          ast.ClassDef)):
+            continue
+        for fld in ('body', 'orelse', 'finalbody'):
+            b = getattr(s, fld, None)
+            if isinstance(b, list) and b and isinstance(b[0], ast.stmt):
+                out.append(b)
+                stack.extend(b)
+        if isinstance(s, ast.Try):
+            for h in s.handlers:
+                out.append(h.body)
+                stack.extend(h.body)
+    return out
+
+
+def outline_back(trees, al):
+    pinned = load_pinned()
+    cur = function_table(trees)
+    restored = []
+    for k in sorted(pinned['functions']):
+        pk = pinned['functions'][k]
+        if k in cur or k in al.moved.values() or not pk.get('src') or \
+                not pk.get('callers') or k.endswith('.setter'):
+            continue
+        try:
+            knode = ast.parse(pk['src']).body[0]
+        except SyntaxError:
+            continue
+        if not isinstance(knode, ast.FunctionDef) or knode.decorator_list:
+            continue
+        body = _strip_doc(knode.body)
+        params = [a.arg for a in knode.args.args]
+        is_method = pk.get('cls') is not None
+        if is_method and params and params[0] == 'self':
+            params = params[1:]
+        assigned = set()
+        for n in _own_walk(knode):
+            if isinstance(n, ast.Name) and isinstance(n.ctx, (ast.Store,
+                                                               ast.Del)):
+                assigned.add(n.id)
+            elif isinstance(n, ast.ExceptHandler) and n.name:
+                assigned.add(n.name)
+        if assigned & set(params) or knode.args.vararg or knode.args.kwarg:
+            continue
+        no_fall = not _falls_through(body)
+        has_ret = any(isinstance(n, ast.Return) for n in _own_walk(knode))
+        kname = knode.name
+        mname = k.split('.')[0]
+        sites = []
+        for cq in pk['callers']:
+            if cq not in cur:
+                continue
+            cnode = cur[cq][0]
+            for blk in _blocks(cnode):
+                i = 0
+                while i + len(body) <= len(blk):
+                    seg = blk[i:i + len(body)]
+                    form = None
+                    u = _Unifier(params, assigned)
+                    try:
+                        if no_fall or not has_ret:
+                            u.value(body, seg)
+                            form = 'return' if no_fall else 'stmt'
+                        elif isinstance(body[-1], ast.Return) and \
+                                body[-1].value is not None and \
+                                sum(isinstance(n, ast.Return)
+                                    for n in _own_walk(knode)) == 1 and \
+                                isinstance(seg[-1], ast.Assign):
+                            u.value(body[:-1], seg[:-1])
+                            u.node(body[-1].value, seg[-1].value)
+                            form = 'assign'
+                    except _NoMatch:
+                        form = None
+                    if form is None:
+                        i += 1
+                        continue
+                    args = [copy.deepcopy(u.pbind.get(p_))
+                            if p_ in u.pbind else ast.Constant(value=None)
+                            for p_ in params]
+                    fn = ast.Attribute(value=ast.Name(id='self',
+                                                      ctx=ast.Load()),
+                                       attr=kname, ctx=ast.Load()) \
+                        if is_method else ast.Name(id=kname, ctx=ast.Load())
+                    call = ast.Call(func=fn, args=args, keywords=[])
+                    if form == 'return':
+                        new = ast.Return(value=call)
+                    elif form == 'stmt':
+                        new = ast.Expr(value=call)
+                    else:
+                        new = ast.Assign(targets=seg[-1].targets, value=call)
+                    ast.copy_location(new, seg[0])
+                    ast.fix_missing_locations(new)
+                    _setfile(new, getattr(seg[0], '_file', None))
+                    blk[i:i + len(body)] = [new]
+                    sites.append((cq, form))
+                    i += 1
+        if not sites:
+            continue
+        # put the pinned definition back (file attribute: the caller's)
+        f0 = getattr(cur[sites[0][0]][0], '_file', None)
+        for n in ast.walk(knode):
+            n._file = f0
+        tree = trees[mname]
+        if is_method:
+            for st in tree.body:
+                if isinstance(st, ast.ClassDef) and st.name == pk['cls']:
+                    st.body.append(knode)
+        else:
+            tree.body.append(knode)
+        restored.append((k, sites))
+    return restored
